@@ -3,6 +3,18 @@ import common as C
 import res_run
 
 
+# Closures derived by hand from the source of some fixed programs that lie outside both finding classes (independent
+# of rattr's own call records, which the closure specification takes as given)
+HAND_EXPECT = {
+    "class_init": {"mk": {"gets": ["q.src", "q.src.boxed", "t"], "sets": ["t", "t.held"]}},
+    "class_init_dotted_target": {"mk": {"gets": ["q", "q.boxed"],
+                                        "sets": ["holder.items[]", "holder.items[].x", "holder.items[].y", "holder.pt", "holder.pt.x", "holder.pt.y"]}},
+    "same_callee_two_keyword_values": {"top": {"gets": ["a", "a.touched", "b", "c"], "sets": ["b.seen", "c.seen"]}},
+    "zero_arg_callees": {"run": {"gets": ["item"], "sets": ["REG.ready", "item.seen"]}, "again": {"gets": ["item"], "sets": ["REG.ready", "item.seen"]}},
+    "mutual_recursion": {"ping": {"gets": ["a", "a.pi", "a.po"], "sets": []}},
+}
+
+
 def main(tier: str) -> int:
     prop = "C03"
     T = C.Timer()
@@ -21,9 +33,22 @@ def main(tier: str) -> int:
     new = [m for c, m in spec_fail if (c & 8) or not (c & 48) or (c & 1)]
     kf1 = any((c & 6) and (c & 16) and not (c & 1) for c, m in spec_fail)
     kf2 = any((c & 6) and (c & 32) and not (c & 1) for c, m in spec_fail)
+    hand_bad = []
+    for c, m in cases:
+        exp = HAND_EXPECT.get(m["program"])
+        if not exp or m["results"] is None or not m["variant"].startswith("order"):
+            continue
+        for fn, want in exp.items():
+            got = m["results"].get(fn)
+            if got is None or any(got[k] != v for k, v in want.items()):
+                hand_bad.append({"why": f"{fn}: results {None if got is None else {k: got[k] for k in want}} != the closure derived from the source {want}", **m})
+                break
+    for m in hand_bad[:2]:
+        V.violation({"property": prop, **m})
+    new = new + hand_bad
     for m in raised[:2]:
         V.violation({"property": prop, "why": "result generation raised", **m})
-    for m in new[:5]:
+    for m in [x for x in new if x not in hand_bad][:5]:
         V.violation({"property": prop, "why": "results are not the closure (lower bound missed / upper bound exceeded / calls wrong) outside the listed finding classes or beyond what the model predicts", **m})
     if not new and not raised:
         if corr_fail:
